@@ -595,9 +595,30 @@ func CheckC15(env *core.Env, rep *core.Report) *core.Result {
 			}
 		}
 	}
+	// sparse documents: the base document gives every key a value; here entries have next to none
+	// (a task without dir whose context is not defined, a watcher with a task only, an empty context, ...)
+	for k, doc := range []string{
+		"tasks:\n  entry:\n    context: nosuch\n    command: [\"true\"]\n",
+		"tasks:\n  entry:\n    command: \"true\"\npipelines:\n  entry:\n    - task: entry\n",
+		"tasks:\n  entry:\n    command: \"true\"\nwatchers:\n  entry:\n    task: entry\n",
+		"contexts:\n  entry: {}\ntasks:\n  entry:\n    context: entry\n    command: [\"true\"]\n",
+		"tasks:\n  entry: {}\npipelines:\n  entry: []\n",
+		"tasks:\n  entry:\n    context: \"\"\n    dir: \"\"\n    command: []\n",
+	} {
+		dd := env.Sub("sparse")
+		f := filepath.Join(dd, "tasks.yaml")
+		_ = ioutil.WriteFile(f, []byte(doc), 0o644)
+		for _, args := range [][]string{{"-c", f, "list"}, {"-c", f, "show", "entry"}, {"-c", f, "graph", "entry"}, {"-c", f, "validate", f}} {
+			res := e.run(dd, "", 10*time.Second, args...)
+			atomic.AddInt64(&byteRuns, 1)
+			if !judge(fmt.Sprintf("sparse-document:%d", k), res, fmt.Sprintf("a sparse configuration: taskctl %s", strings.Join(args[2:], " ")), map[string]interface{}{"document": doc, "stderr": tailS(res.Stderr, 800)}) {
+				break
+			}
+		}
+	}
 	e.samples.Add(map[string]interface{}{"kind": "envfile", "lines": []string{"kv", "blank", "nokv"}, "predicted": "Rejected"})
 	return e.result("exploration", int(runs), distinct.N(),
-		"structural: every (position, shape) pair of Shapes.tla - positions = top-level keys, the four sections, one entry of each, every documented field of an entry; shapes = null, int, string, empty string, bool, list, map, list of maps, nested list, deleted, duplicated, unknown key - applied to a base document that uses every documented key, serialised to YAML (all) and JSON/TOML (quick 1/3, thorough all; shapes a format cannot express are skipped and counted) and given to list, show, graph, validate; env_file: line sequences of length <=3 over 12 line classes plus a missing file (quick: all of length <=2 and 1/8 of length 3), predicted accept/reject; byte level: truncation at every 1/16, invalid UTF-8 at three offsets, empty / NUL / deeply nested input, YAML anchors, merge keys and alias expansion; four large valid documents (a layered pipeline with 3^17 paths in both declaration orders, a chain of 300 stages, 300 tasks) that must load, validate and draw within 20 s. distinct_nontrivial = distinct (position, shape, format) and env_file cases executed",
+		"structural: every (position, shape) pair of Shapes.tla - positions = top-level keys, the four sections, one entry of each, every documented field of an entry; shapes = null, int, string, empty string, bool, list, map, list of maps, nested list, deleted, duplicated, unknown key - applied to a base document that uses every documented key, serialised to YAML (all) and JSON/TOML (quick 1/3, thorough all; shapes a format cannot express are skipped and counted) and given to list, show, graph, validate; env_file: line sequences of length <=3 over 12 line classes plus a missing file (quick: all of length <=2 and 1/8 of length 3), predicted accept/reject; byte level: truncation at every 1/16, invalid UTF-8 at three offsets, empty / NUL / deeply nested input, YAML anchors, merge keys and alias expansion; six sparse documents (entries with next to no fields, an undefined context without dir); four large valid documents (a layered pipeline with 3^17 paths in both declaration orders, a chain of 300 stages, 300 tasks) that must load, validate and draw within 20 s. distinct_nontrivial = distinct (position, shape, format) and env_file cases executed",
 		map[string]interface{}{"cases_in_model": len(cases), "skipped_not_expressible": skipped, "byte_level_runs": byteRuns},
 		[]string{"'for all byte strings' is addressed structurally plus a fixed set of byte-level perturbations; no claim of coverage of arbitrary bytes",
 			"oracle: exit status 0 or 1, no panic / fatal error / goroutine dump, bounded time (8-10 s); accept/reject predicted only for unknown keys and env_file lines"})
